@@ -3,12 +3,23 @@
 Enumerates width sequences over every storage type (unsigned, signed, enum, flag, char, odd widths), mixes them with
 non-bit fields and dynamic fields, and compares, for every unit content tried:
   real parse / dumps  vs  the independent bit-slicing reference (refimpl)  vs  the Lean model.
+
+Round 2 (t1):
+  * endianness histories (t1_hist.endian_history): the same predicates (fields are the reference's slices of the unit for the
+    byte order in effect, values in [0, 2^bits), dumps is the exact inverse) evaluated on ONE cstruct instance on which
+    `cs.endian` is switched directly after `cs.load`, after a first parse, or after a first parse and dump - both
+    directions and switched back - for the grid storage type x {interpreted, compiled} x first endianness (compositions
+    that are not symmetric under reversal, optionally a second unit / a non-bit field behind) and for samples of the mixed
+    trees, with one to three definitions per instance loaded in different epochs with their own compiled/align flags.
+    The reference at each step is the bit-slicing reference for the endianness in effect at that step.
+  * carried-over values: a value parsed under the previous byte order is dumped under the current one; the reference (and
+    the real reader) for the current byte order must read the same field values back from those bytes.
 """
 from __future__ import annotations
 
 import itertools
 
-from .. import defs, impl, refimpl
+from .. import defs, impl, refimpl, t1_hist
 from ..common import Result, mkrng
 from ..structprops import Engine, load, real_parse, bits_after_dynamic, small_unit_bits, signed_bit_units, rand_bytes
 
@@ -102,13 +113,178 @@ def straddles():
     return out
 
 
+def ref_parse(tree, data, cfg):
+    try:
+        rv, rend, rmask = refimpl.parse(tree, data, 0, cfg)
+        return ("ok", rv, rend), rmask
+    except refimpl.Short:
+        return ("err", "EOFError"), None
+    except refimpl.Bad:
+        return ("err", "Bad"), None
+
+
+def check_input(eng, res, L, tree, cfg, data, sigs, *, dump=True, model=True):
+    """The C06 predicate for one definition, one configuration (the one recorded in L / cfg: for a view on a shared
+    instance the configuration in effect at this step) and one input: the parsed bit-fields are the slices of the unit that
+    the independent reference cuts out for cfg.endian, each in [0, 2^bits), and dumps is the exact inverse.  -> the parsed
+    object, or None when the input was not parsed or the reading half failed."""
+    T = L.T
+    want, obj = real_parse(T, data)
+    ref, rmask = ref_parse(tree, data, cfg)
+    cd = eng.case_data(L, data=data)
+    ok = None
+    if want[0] == "ok":
+        if ref[0] != "ok" or not impl.same_val(want[1], ref[1]) or want[2] != ref[2]:
+            eng.report(f"parsed {str(want[1])[:200]} consuming {want[2]}; bit-slicing reference gives {str(ref)[:200]}", cd, sigs)
+            return None
+        ok = obj
+        # each value in [0, 2^bits)
+        for f, rf in zip(tree[1], T.__fields__):
+            if f["bits"]:
+                v = int(getattr(obj, rf._name))
+                if not (0 <= v < (1 << f["bits"])):
+                    eng.report(f"bit-field {rf._name} : {f['bits']} has value {v}", cd, sigs)
+        if dump:
+            # writing is the inverse: dumps reproduces the input at every data bit, zero elsewhere
+            d = impl.dump(T, obj)
+            if d[0] != "ok":
+                f3 = signed_bit_units(tree)
+                eng.report(f"dumping the parsed value raises {d[1]}", cd, sigs + (["F3"] if f3 else []))
+            else:
+                padded = data[: want[2]] + bytes(max(0, want[2] - len(data)))
+                exp = bytes(b & m for b, m in zip(padded, rmask))
+                if d[1] != exp:
+                    eng.report(f"dumps gives {d[1].hex()}, the data bits of the input are {exp.hex()}", cd, sigs)
+            if model and "F23" not in sigs:
+                eng.model_write(L, want[1], d, "bit-field write")
+    elif ref[0] == "ok":
+        eng.report(f"parse raises {want[1]} where the reference parses {str(ref[1])[:200]}", cd, sigs)
+    if model and "F23" not in sigs and not L.compiled:
+        eng.model_read(L, data, 0, want, "bit-field read")
+    return ok
+
+
+def check_carried(eng, res, L, tree, cfg, obj, sigs):
+    """writing is the inverse of reading, for a value that exists already (parsed before `cs.endian` was switched): dumped
+    now, the bytes must be those from which the reference for the byte order in effect NOW reads the same value back, and
+    so must the real reader."""
+    T = L.T
+    v = impl.canon(obj)
+    cd = eng.case_data(L, value=str(v)[:400])
+    d = impl.dump(T, obj)
+    if d[0] != "ok":
+        eng.report(f"a value parsed before the endianness switch cannot be dumped after it: {d[1]}", cd,
+                   sigs + (["F3"] if signed_bit_units(tree) else []))
+        return
+    cd["dumped"] = d[1].hex()
+    ref, rmask = ref_parse(tree, d[1], cfg)
+    if ref[0] != "ok" or not impl.same_val(v, ref[1]) or ref[2] != len(d[1]):
+        eng.report(f"carried-over value {str(v)[:200]} is dumped as {d[1].hex()}, from which the bit-slicing reference reads {str(ref)[:200]}", cd, sigs)
+        return
+    if any(b & ~m & 0xFF for b, m in zip(d[1], rmask)):
+        eng.report(f"carried-over value {str(v)[:200]} is dumped as {d[1].hex()} with non-zero bits outside every field", cd, sigs)
+    back, _ = real_parse(T, d[1])
+    if back[0] != "ok" or not impl.same_val(v, back[1]) or back[2] != len(d[1]):
+        eng.report(f"carried-over value {str(v)[:200]}: parse(dumps(v)) = {str(back)[:200]}", cd, sigs)
+    if "F23" not in sigs:
+        eng.model_write(L, v, d, "bit-field write of a carried-over value")
+
+
+def history_items(rnd, tier, trees):
+    """definitions for the endianness histories: (1) the grid storage type x compiled x first endianness, each with a
+    freshly drawn composition of the unit that is not symmetric under reversal (so that bit order matters), alone or
+    followed by a second unit / a non-bit field; (2) samples of the generated mixed trees of family (b)."""
+    out = []
+    reps = 2 if tier == "quick" else 12
+    for st, w in STORAGE.items():
+        for compiled in (False, True):
+            for start in "<>":
+                for _ in range(reps):
+                    for _try in range(20):
+                        comp, left = [], w
+                        n = rnd.randint(2, 5)
+                        while left and len(comp) < n:
+                            p = rnd.randint(1, max(1, min(left, w - 1)))
+                            comp.append(p)
+                            left -= p
+                        if len(comp) >= 2 and (comp != comp[::-1] or left):
+                            break
+                    fields = [bitfield(f"b{i}", st, p) for i, p in enumerate(comp)]
+                    r = rnd.random()
+                    if r < 0.3:
+                        fields.append({"name": "plain", "ty": ("sc", rnd.choice(["uint16", "uint32", "uint8"])), "bits": None})
+                    if r < 0.5:
+                        st2 = rnd.choice(list(STORAGE))
+                        a = rnd.randint(1, STORAGE[st2] - 1)
+                        fields += [bitfield("c0", st2, a), bitfield("c1", st2, rnd.randint(1, STORAGE[st2] - a))]
+                    out.append((start, [{"tree": ("struct", fields), "compiled": compiled, "align": rnd.random() < 0.35}]))
+    mixed = [t for t in trees if sum(1 for f in t[1] if f["bits"]) >= 2]
+    for _ in range(100 if tier == "quick" else 2500):
+        items = [{"tree": rnd.choice(mixed), "compiled": rnd.random() < 0.6, "align": rnd.random() < 0.35} for _ in range(rnd.choice([1, 1, 2, 3]))]
+        out.append((rnd.choice("<>"), items))
+    return out
+
+
+def endian_histories(eng, res, rnd, tier, trees):
+    """(d) the predicates across histories on one instance in which `cs.endian` is switched after load / after a first parse /
+    after a first parse and dump, both directions and back, compiled and interpreted, every storage type"""
+    for start, items in history_items(rnd, tier, trees):
+        info = {}
+
+        def prep(k, L):
+            if k not in info:
+                tree, align = items[k]["tree"], items[k]["align"]
+                cfg0 = refimpl.Cfg("<", align, "uint64", impl.CONSTS)
+                try:
+                    size = refimpl.struct_layout(tree[1], cfg0)["size"] or 24
+                except refimpl.Bad:
+                    size = 24
+                info[k] = {"size": size, "sigs": ["F23"] if align and small_unit_bits(tree) else [], "nbits": sum(1 for f in tree[1] if f["bits"]),
+                           "st": tree[1][0]["ty"][1] if tree[1][0]["bits"] else "mixed", "real": bool(getattr(L.T, "__compiled__", False))}
+            return info[k]
+
+        def inputs_for(k, L):
+            n = prep(k, L)["size"] + 4
+            return [rnd.choice([b"\x80", b"\x01", b"\xa5", b"\xff"]) * n] * (rnd.random() < 0.4) + [rand_bytes(rnd, n) for _ in range(2)]
+
+        def on_input(k, L, data, i, dump):
+            it, inf = items[k], prep(k, L)
+            cfg = refimpl.Cfg(L.endian, it["align"], "uint64", impl.CONSTS)
+            res.count(("hist", L.text, start, i, L.endian, it["align"], it["compiled"], dump, data), inf["nbits"] >= 2)
+            res.feat("history:endian:" + ("after-switch" if i else "first-epoch") + (":compiled" if inf["real"] else ":interpreted") +
+                     ("" if dump else ":parse-only"))
+            if i:
+                res.feat(f"history:endian:after-switch:storage:{inf['st']}:{'compiled' if inf['real'] else 'interpreted'}")
+            return check_input(eng, res, L, it["tree"], cfg, data, inf["sigs"], dump=dump, model=i > 0)
+
+        def on_carried(k, L, obj, i):
+            it, inf = items[k], prep(k, L)
+            cfg = refimpl.Cfg(L.endian, it["align"], "uint64", impl.CONSTS)
+            res.count(("hist-carried", L.text, start, i, L.endian, it["align"], it["compiled"], repr(impl.canon(obj))), inf["nbits"] >= 2)
+            res.feat("history:endian:carried-value" + (":compiled" if inf["real"] else ":interpreted"))
+            check_carried(eng, res, L, it["tree"], cfg, obj, inf["sigs"])
+
+        sess, views, firsts = t1_hist.endian_history(rnd, items, start=start, inputs_for=inputs_for, on_input=on_input, on_carried=on_carried)
+        res.feat("history:endian:instances")
+        for v, f in zip(views, firsts):
+            if v is not None:
+                res.feat(f"history:endian:between load and next switch:{f}")
+        if sum(1 for v in views if v is not None) >= 2:
+            res.feat("history:endian:instances with several definitions")
+        if len(eng.lines) > 5000:
+            eng.flush()
+
+
 def run(env) -> Result:
     res = Result()
     res.rule = ("(a) every composition of an 8-bit unit over uint8/int8/char/enum storage, compositions of 16-bit units, sampled compositions of "
                 "24/32/48/64-bit units; (b) seeded sequences of runs with unit switches, exhausted units, non-bit and dynamic fields, nested "
                 "bit-field structs; (c) straddling definitions must be rejected. Each under {<,>} x {packed, aligned} x {interpreted, compiled}, "
                 "unit contents: all 256 values for 8-bit units, boundary + random otherwise. Compared: real parse/dumps vs independent bit-slicing "
-                "reference vs Lean model. distinct = (definition, config, input); non-trivial = >= 2 bit-fields")
+                "reference vs Lean model. (d) endianness histories on one instance: cs.endian switched after load / after a first parse / after a "
+                "first parse+dump, both directions and back, per storage type x compiled x first endianness plus mixed trees, 1-3 definitions per "
+                "instance loaded in different epochs; the same predicates per step against the reference for the byte order in effect, and values "
+                "parsed before a switch dumped after it. distinct = (definition, config, input); non-trivial = >= 2 bit-fields")
     eng = Engine(env, res, "C06")
     rnd = mkrng(env["seed"], "c06")
     tier = env["tier"]
@@ -149,44 +325,12 @@ def run(env) -> Result:
             for data in inputs:
                 res.count((L.text, endian, align, compiled, data), nbits >= 2)
                 res.feat(f"storage:{tree[1][0]['ty'][1]}" if tree[1][0]["bits"] else "mixed")
-                want, obj = real_parse(T, data)
-                # reference
-                try:
-                    rv, rend, rmask = refimpl.parse(tree, data, 0, cfg)
-                    ref = ("ok", rv, rend)
-                except refimpl.Short:
-                    ref = ("err", "EOFError")
-                except refimpl.Bad:
-                    ref = ("err", "Bad")
-                cd = eng.case_data(L, data=data)
-                if want[0] == "ok":
-                    if ref[0] != "ok" or not impl.same_val(want[1], ref[1]) or want[2] != ref[2]:
-                        eng.report(f"parsed {str(want[1])[:200]} consuming {want[2]}; bit-slicing reference gives {str(ref)[:200]}", cd, sigs)
-                        continue
-                    # each value in [0, 2^bits)
-                    for f, rf in zip(tree[1], T.__fields__):
-                        if f["bits"]:
-                            v = int(getattr(obj, rf._name))
-                            if not (0 <= v < (1 << f["bits"])):
-                                eng.report(f"bit-field {rf._name} : {f['bits']} has value {v}", cd, sigs)
-                    # writing is the inverse: dumps reproduces the input at every data bit, zero elsewhere
-                    d = impl.dump(T, obj)
-                    if d[0] != "ok":
-                        f3 = signed_bit_units(tree)
-                        eng.report(f"dumping the parsed value raises {d[1]}", cd, sigs + (["F3"] if f3 else []))
-                    else:
-                        padded = data[: want[2]] + bytes(max(0, want[2] - len(data)))
-                        exp = bytes(b & m for b, m in zip(padded, rmask))
-                        if d[1] != exp:
-                            eng.report(f"dumps gives {d[1].hex()}, the data bits of the input are {exp.hex()}", cd, sigs)
-                    if "F23" not in sigs:
-                        eng.model_write(L, want[1], d, "bit-field write")
-                elif ref[0] == "ok":
-                    eng.report(f"parse raises {want[1]} where the reference parses {str(ref[1])[:200]}", cd, sigs)
-                if "F23" not in sigs and not compiled:
-                    eng.model_read(L, data, 0, want, "bit-field read")
+                check_input(eng, res, L, tree, cfg, data, sigs)
         if len(eng.lines) > 5000:
             eng.flush()
+    # (d) endianness histories on one instance
+    endian_histories(eng, res, rnd, tier, trees)
+    eng.flush()
     # (c) straddles are rejected at definition time, by the code and by the model
     for tree in straddles():
         for align in (False, True):
